@@ -6,8 +6,10 @@ import (
 	"errors"
 	"fmt"
 	"io"
+	"net"
 	"slices"
 	"testing"
+	"time"
 
 	"github.com/c2FmZQ/ech"
 	"pgregory.net/rapid"
@@ -530,5 +532,99 @@ func TestC07CutSweep(t *testing.T) {
 			}
 		}
 		rec.Class("cut_sweep_flight")
+	})
+}
+
+// TestC07Idle: the client falls silent at an arbitrary offset after its hello - inside a
+// record or between two - while the relay polls the Conn with short read deadlines (an
+// idle timer). The relay then extends the deadline and the client resumes. Whatever the
+// Conn does with a timeout that hit it in the middle of a record, the backend never
+// receives anything but a prefix of the (rewritten) client stream: either the stream goes
+// on where it was, or the Conn stays failed and delivers nothing more.
+func TestC07Idle(t *testing.T) {
+	rec := ev.Get("C07")
+	rapid.Check(t, func(t *rapid.T) {
+		sc := drawSealed(t, false)
+		var rest []byte
+		for i, n := 0, rapid.IntRange(1, 5).Draw(t, "nrecords"); i < n; i++ {
+			ct := byte(rapid.SampledFrom([]int{20, 22, 22, 21, 23}).Draw(t, "ct"))
+			b := hello.GenBytes(t, "body", rapid.IntRange(1, 400).Draw(t, "len"))
+			if ct == 22 && b[0] == 1 {
+				b[0] = 11 // not a ClientHello
+			}
+			if ct == 20 {
+				b = []byte{1}
+			}
+			rest = append(rest, hello.Record(ct, 0x0303, b)...)
+		}
+		stream := append(append([]byte{}, sc.Record...), rest...)
+		want := append(hello.Record(22, 0x0303, sc.WantInner), rest...)
+		k := len(sc.Record) + uniform(t, "silent_at", len(rest))
+		tr := wire.New(stream[:k], nil)
+		c, err := newConn(context.Background(), tr, echKeys(sc.Key))
+		if err != nil || !c.ECHAccepted() {
+			t.Fatalf("harness: hello not accepted: %v", err)
+		}
+		rp := map[string]any{"keys": keysReplay([]*hello.Key{sc.Key}), "client_stream": hx(stream), "silent_at": k}
+		var got []byte
+		isPrefix := func() bool {
+			if len(got) > len(want) {
+				return false
+			}
+			for i := range got {
+				if got[i] != want[i] && i != 1 && i != 2 {
+					return false
+				}
+			}
+			return true
+		}
+		buf := make([]byte, 1+uniform(t, "bufsize", 3000))
+		timedOut := false
+		for i := 0; i < 10000 && !timedOut; i++ {
+			tr.SetReadDeadline(time.Now().Add(2 * time.Millisecond))
+			var n int
+			e := guard(func() error { var e error; n, e = c.Read(buf); return e })
+			got = append(got, buf[:n]...)
+			if !isPrefix() {
+				ev.Violation(t, "C07", rp, "backend received bytes that are not a prefix of the client's stream (%d bytes, before the client fell silent)", len(got))
+			}
+			if e != nil {
+				var ne net.Error
+				if isPanic(e) || !errors.As(e, &ne) || !ne.Timeout() {
+					ev.Violation(t, "C07", rp, "Read with a silent client and a read deadline returned %v, want the transport's timeout", e)
+				}
+				timedOut = true
+			}
+		}
+		before := len(got)
+		tr.SetReadDeadline(time.Time{})
+		tr.Feed(stream[k:])
+		tr.Finish(io.EOF)
+		for i := 0; i < 10000; i++ {
+			var n int
+			e := guard(func() error { var e error; n, e = c.Read(buf); return e })
+			got = append(got, buf[:n]...)
+			if !isPrefix() {
+				ev.Violation(t, "C07", rp, "after a read timeout at stream offset %d (the client then resumed) the backend received bytes that are not the client's stream: %d bytes delivered, first %d before the timeout", k, len(got), before)
+			}
+			if e != nil {
+				if isPanic(e) {
+					ev.Violation(t, "C07", rp, "panic: %v", e)
+				}
+				break
+			}
+		}
+		if len(got) != len(want) && len(got) != before {
+			ev.Violation(t, "C07", rp, "after a read timeout at stream offset %d the Conn delivered %d more bytes and then stopped short of the stream's end (%d of %d)", k, len(got)-before, len(got), len(want))
+		}
+		cl := []string{"idle_then_resume"}
+		if len(got) == len(want) {
+			cl = append(cl, "idle_stream_continued")
+		} else {
+			cl = append(cl, "idle_conn_stays_failed")
+		}
+		rec.Case(fmt.Sprintf("idle|%d|%d", k-len(sc.Record), len(rest)), true, cl, func() any {
+			return map[string]any{"kind": "idle", "silent_at": k, "stream": len(stream), "delivered": len(got)}
+		})
 	})
 }
